@@ -23,6 +23,7 @@
 //!                                      buffers of each explicit operation; obs carries the number
 //!                                      of bytes accepted instead of the bytes
 //!   obs = per-op results | number of inner calls | sink bytes
+//!   ixf (wave 10): see harness/src/shared/c14_deep10.rs
 //!   ixb / crc (wave 7): see harness/src/shared/c14_deep7.rs; mta / ixc / awa / afq / awfmt / abz: c14_deep4.rs
 //! Implementation-only oracles (obs "-"):
 //!   sweep fmt ending seed kind         Fail(kind) at every inner call k < N (sampled if N > 200)
@@ -249,6 +250,8 @@ macro_rules! op {
 mod c14_deep4;
 #[path = "../shared/c14_deep7.rs"]
 mod c14_deep7;
+#[path = "../shared/c14_deep10.rs"]
+mod c14_deep10;
 
 // ---------------------------------------------------------------------------------------------
 // fixtures
@@ -2253,6 +2256,7 @@ fn generate(rng: &mut Rng, tier: &str, w: &mut CaseWriter) {
     c14_deep7::gen_fol(rng, thorough, w);
     c14_deep7::gen_crc(rng, thorough, w);
     c14_deep4::gen_abz(rng, thorough, w);
+    c14_deep10::gen_ixf(rng, thorough, w);
 
     // --- L3: failure at every inner call, for every writer of the quantifier
     let rounds = if thorough { 10 } else { 2 };
@@ -2553,6 +2557,7 @@ fn run(c: &Case) -> Obs {
         "awa" | "afq" => c14_deep4::run_async(c),
         "awfmt" => c14_deep4::run_awfmt(c),
         "ixb" => c14_deep7::run_ixb(c),
+        "ixf" => c14_deep10::run_ixf(c),
         "crc" => c14_deep7::run_crc(c),
         "abz" => c14_deep4::run_abz(c),
         "fob" => run_fob(c),
